@@ -5,6 +5,7 @@ mod c05;
 mod c06;
 mod c07;
 mod c08;
+mod boundary;
 mod c01;
 mod c17;
 mod alloc;
